@@ -316,11 +316,39 @@ theorem posStep_noAbort (rec : P) (m : Mode) (o : Opts) (sg : Sig) : NoAbort (po
       | report e' r => cases r <;> simp
       | abort e' x' => exact absurd hfv (this e' x')
 
+theorem countStep_noAbort (o : Opts) (n : Nat) : NoAbort (countStep o n) := by
+  intro a i e x
+  unfold countStep
+  split
+  · split
+    · split <;> simp
+    · simp
+  · split
+    · split <;> simp
+    · simp
+
+theorem depsStep_noAbort (rec : P) (m : Mode) (o : Opts) (decl : List FieldDecl) (ex : List String) (data : Data)
+    (g : Bool) : NoAbort (depsStep rec m o decl ex data g) := by
+  intro a i e x
+  unfold depsStep
+  split <;> simp
+
 /-! ### what a collecting run reports, in closed form -/
 
-def reportsDF (rec : P) (m : Mode) (o : Opts) (decl : List FieldDecl) (ex : List String) (data : Data) : List Err :=
+/-- the errors of the key count (`g`: the checks of the whole mapping are on) -/
+def countReports (o : Opts) (n : Nat) (g : Bool) : List Err :=
+  (trace (countStep o n) (if g then [true, false] else []) ()).1
+
+/-- the `DependenciesAbsenceError`, if any -/
+def depsReports (rec : P) (m : Mode) (o : Opts) (decl : List FieldDecl) (ex : List String) (data : Data) (g : Bool) :
+    List Err :=
+  (trace (depsStep rec m o decl ex data g) [()] ()).1
+
+def reportsDF (rec : P) (m : Mode) (o : Opts) (decl : List FieldDecl) (ex : List String) (g : Bool) (data : Data) :
+    List Err :=
   (trace (dfStep1 rec m o decl ex) data ([], [])).1 ++
-  (trace (dfStep2 data ex) decl (fin (dfStep1 rec m o decl ex) data ([], [])).1).1
+  ((trace (dfStep2 data ex) decl (fin (dfStep1 rec m o decl ex) data ([], [])).1).1 ++
+   depsReports rec m o decl ex data g)
 
 def valueDF (rec : P) (m : Mode) (o : Opts) (decl : List FieldDecl) (ex : List String) (data : Data) : Data :=
   fin (dfStep2 data ex) decl (fin (dfStep1 rec m o decl ex) data ([], [])).1 ++
@@ -331,10 +359,12 @@ def Addition.given : Addition → Bool
   | .none => false
   | _ => true
 
-def reportsFF (rec : P) (m : Mode) (o : Opts) (decl : List FieldDecl) (ex : List String) (data : Data) : List Err :=
+def reportsFF (rec : P) (m : Mode) (o : Opts) (decl : List FieldDecl) (ex : List String) (g : Bool) (data : Data) :
+    List Err :=
   (trace (ffStep1 rec m o data ex) decl []).1 ++
-  (if o.addition.given then
-    (trace (ffStep2 rec m o decl ex) data (fin (ffStep1 rec m o data ex) decl [], [])).1 else [])
+  (depsReports rec m o decl ex data g ++
+   (if o.addition.given then
+     (trace (ffStep2 rec m o decl ex) data (fin (ffStep1 rec m o data ex) decl [], [])).1 else []))
 
 def valueFF (rec : P) (m : Mode) (o : Opts) (decl : List FieldDecl) (ex : List String) (data : Data) : Data :=
   if o.addition.given then
@@ -342,16 +372,19 @@ def valueFF (rec : P) (m : Mode) (o : Opts) (decl : List FieldDecl) (ex : List S
     (fin (ffStep2 rec m o decl ex) data (fin (ffStep1 rec m o data ex) decl [], [])).2
   else fin (ffStep1 rec m o data ex) decl []
 
-/-- every error a collecting `parse_data` hands to `handle_error` when no cap stops it (`ex` = excluded keys) -/
-def reportsX (rec : P) (m : Mode) (o : Opts) (decl : List FieldDecl) (ex : List String) (data : Data) : List Err :=
-  if o.dfs then reportsDF rec m o decl ex data else reportsFF rec m o decl ex data
+/-- every error a collecting `parse_data` hands to `handle_error` when no cap stops it (`ex` = excluded keys,
+`g` = with the checks of the whole mapping) -/
+def reportsX (rec : P) (m : Mode) (o : Opts) (decl : List FieldDecl) (ex : List String) (g : Bool) (data : Data) :
+    List Err :=
+  countReports o data.length g ++
+  (if o.dfs then reportsDF rec m o decl ex g data else reportsFF rec m o decl ex g data)
 
 def valueX (rec : P) (m : Mode) (o : Opts) (decl : List FieldDecl) (ex : List String) (data : Data) : Data :=
   if o.dfs then valueDF rec m o decl ex data else valueFF rec m o decl ex data
 
-/-- … of a data class / keyword call: nothing excluded -/
+/-- … of a data class / keyword call: nothing excluded, all checks -/
 def reports (rec : P) (m : Mode) (o : Opts) (decl : List FieldDecl) (data : Data) : List Err :=
-  reportsX rec m o decl [] data
+  reportsX rec m o decl [] true data
 
 def value (rec : P) (m : Mode) (o : Opts) (decl : List FieldDecl) (data : Data) : Data :=
   valueX rec m o decl [] data
@@ -406,66 +439,75 @@ theorem ran_pure (mx : Option Nat) (o : Opts) (es0 : List Err) (h0 : capOk mx es
 theorem capOk_append {mx : Option Nat} {es rs : List Err} (h : capOk mx (es.length + rs.length)) :
     capOk mx (es ++ rs).length := by simpa using h
 
-theorem dataFirst_ran (rec : P) (mx : Option Nat) (o : Opts) (decl : List FieldDecl) (ex : List String)
-    (es0 : List Err) (h0 : capOk mx es0.length) (data : Data) :
-    Ran mx o es0 (reportsDF rec ⟨true, mx⟩ o decl ex data) (valueDF rec ⟨true, mx⟩ o decl ex data)
-      (dataFirst rec decl ex (held mx o es0) data) := by
-  unfold dataFirst reportsDF valueDF
-  refine ran_andThen (runLoop_ran (dfStep1_noAbort rec _ o decl ex) mx o es0 h0 data ([], [])) (fun h1 => ?_)
-  have h2 := ran_andThen (b := fin (dfStep2 data ex) decl (fin (dfStep1 rec ⟨true, mx⟩ o decl ex) data ([], [])).1 ++
-      (fin (dfStep1 rec ⟨true, mx⟩ o decl ex) data ([], [])).2)
-    (k := fun c2 res2 => (c2, Except.ok (res2 ++ (fin (dfStep1 rec ⟨true, mx⟩ o decl ex) data ([], [])).2)))
-    (runLoop_ran (dfStep2_noAbort data ex) mx o (es0 ++ (trace (dfStep1 rec ⟨true, mx⟩ o decl ex) data ([], [])).1)
-      (capOk_append h1) decl (fin (dfStep1 rec ⟨true, mx⟩ o decl ex) data ([], [])).1)
-    (fun h2 => ran_pure mx o _ (capOk_append h2) _)
-  simpa using h2
+/-- a loop over no real accumulator (key count, dependency check) followed by a continuation -/
+theorem unit_loop_ran {ι : Type} {step : Unit → ι → Step Unit} (hna : NoAbort step) {mx : Option Nat} {o : Opts}
+    {es0 rs2 : List Err} (h0 : capOk mx es0.length) (items : List ι) {b : β} {k : Ctx → Unit → Ctx × Res β}
+    (h2 : capOk mx (es0.length + (trace step items ()).1.length) →
+      Ran mx o (es0 ++ (trace step items ()).1) rs2 b (k (held mx o (es0 ++ (trace step items ()).1)) ())) :
+    Ran mx o es0 ((trace step items ()).1 ++ rs2) b (andThen (runLoop step (held mx o es0) items ()) k) :=
+  ran_andThen (runLoop_ran hna mx o es0 h0 items ()) h2
 
-theorem ff_given_ran (rec : P) (mx : Option Nat) (o : Opts) (decl : List FieldDecl) (ex : List String)
+theorem dataFirst_ran (rec : P) (mx : Option Nat) (o : Opts) (decl : List FieldDecl) (ex : List String) (g : Bool)
     (es0 : List Err) (h0 : capOk mx es0.length) (data : Data) :
-    Ran mx o es0
-      ((trace (ffStep1 rec ⟨true, mx⟩ o data ex) decl []).1 ++
-        (trace (ffStep2 rec ⟨true, mx⟩ o decl ex) data (fin (ffStep1 rec ⟨true, mx⟩ o data ex) decl [], [])).1)
+    Ran mx o es0 (reportsDF rec ⟨true, mx⟩ o decl ex g data) (valueDF rec ⟨true, mx⟩ o decl ex data)
+      (dataFirst rec decl ex g (held mx o es0) data) := by
+  unfold dataFirst reportsDF valueDF depsReports
+  refine ran_andThen (runLoop_ran (dfStep1_noAbort rec _ o decl ex) mx o es0 h0 data ([], [])) (fun h1 => ?_)
+  refine ran_andThen (runLoop_ran (dfStep2_noAbort data ex) mx o _ (capOk_append h1) decl _) (fun h2 => ?_)
+  have h3 := unit_loop_ran (depsStep_noAbort rec ⟨true, mx⟩ o decl ex data g) (mx := mx) (o := o) (rs2 := [])
+    (capOk_append h2) [()]
+    (b := fin (dfStep2 data ex) decl (fin (dfStep1 rec ⟨true, mx⟩ o decl ex) data ([], [])).1 ++
+      (fin (dfStep1 rec ⟨true, mx⟩ o decl ex) data ([], [])).2)
+    (k := fun c3 _ => (c3, Except.ok (fin (dfStep2 data ex) decl (fin (dfStep1 rec ⟨true, mx⟩ o decl ex) data ([], [])).1 ++
+      (fin (dfStep1 rec ⟨true, mx⟩ o decl ex) data ([], [])).2)))
+    (fun h3 => ran_pure mx o _ (capOk_append h3) _)
+  simpa [held] using h3
+
+theorem fieldFirst_ran (rec : P) (mx : Option Nat) (o : Opts) (decl : List FieldDecl) (ex : List String) (g : Bool)
+    (es0 : List Err) (h0 : capOk mx es0.length) (data : Data) :
+    Ran mx o es0 (reportsFF rec ⟨true, mx⟩ o decl ex g data) (valueFF rec ⟨true, mx⟩ o decl ex data)
+      (fieldFirst rec decl ex g (held mx o es0) data) := by
+  unfold fieldFirst reportsFF valueFF depsReports
+  refine ran_andThen (runLoop_ran (ffStep1_noAbort rec _ o data ex) mx o es0 h0 decl []) (fun h1 => ?_)
+  refine unit_loop_ran (depsStep_noAbort rec ⟨true, mx⟩ o decl ex data g) (capOk_append h1) [()] (fun h2 => ?_)
+  have hgiven : Ran mx o
+      ((es0 ++ (trace (ffStep1 rec ⟨true, mx⟩ o data ex) decl []).1) ++
+        (trace (depsStep rec ⟨true, mx⟩ o decl ex data g) [()] ()).1)
+      (trace (ffStep2 rec ⟨true, mx⟩ o decl ex) data (fin (ffStep1 rec ⟨true, mx⟩ o data ex) decl [], [])).1
       ((fin (ffStep2 rec ⟨true, mx⟩ o decl ex) data (fin (ffStep1 rec ⟨true, mx⟩ o data ex) decl [], [])).1 ++
         (fin (ffStep2 rec ⟨true, mx⟩ o decl ex) data (fin (ffStep1 rec ⟨true, mx⟩ o data ex) decl [], [])).2)
-      (andThen (runLoop (ffStep1 rec ⟨true, mx⟩ o data ex) (held mx o es0) decl []) fun c1 res =>
-        andThen (runLoop (ffStep2 rec ⟨true, mx⟩ o decl ex) c1 data (res, [])) fun c2 acc =>
-          (c2, .ok (acc.1 ++ acc.2))) := by
-  refine ran_andThen (runLoop_ran (ffStep1_noAbort rec _ o data ex) mx o es0 h0 decl []) (fun h1 => ?_)
-  have h2 := ran_andThen
-    (b := (fin (ffStep2 rec ⟨true, mx⟩ o decl ex) data (fin (ffStep1 rec ⟨true, mx⟩ o data ex) decl [], [])).1 ++
-          (fin (ffStep2 rec ⟨true, mx⟩ o decl ex) data (fin (ffStep1 rec ⟨true, mx⟩ o data ex) decl [], [])).2)
-    (k := fun c2 (acc : Data × Data) => (c2, Except.ok (acc.1 ++ acc.2)))
-    (runLoop_ran (ffStep2_noAbort rec ⟨true, mx⟩ o decl ex) mx o (es0 ++ (trace (ffStep1 rec ⟨true, mx⟩ o data ex) decl []).1)
-      (capOk_append h1) data (fin (ffStep1 rec ⟨true, mx⟩ o data ex) decl [], []))
-    (fun h2 => ran_pure mx o _ (capOk_append h2) _)
-  simpa using h2
-
-theorem fieldFirst_ran (rec : P) (mx : Option Nat) (o : Opts) (decl : List FieldDecl) (ex : List String)
-    (es0 : List Err) (h0 : capOk mx es0.length) (data : Data) :
-    Ran mx o es0 (reportsFF rec ⟨true, mx⟩ o decl ex data) (valueFF rec ⟨true, mx⟩ o decl ex data)
-      (fieldFirst rec decl ex (held mx o es0) data) := by
-  unfold fieldFirst reportsFF valueFF
-  have hg := ff_given_ran rec mx o decl ex es0 h0 data
+      (andThen (runLoop (ffStep2 rec ⟨true, mx⟩ o decl ex)
+          (held mx o ((es0 ++ (trace (ffStep1 rec ⟨true, mx⟩ o data ex) decl []).1) ++
+            (trace (depsStep rec ⟨true, mx⟩ o decl ex data g) [()] ()).1))
+          data (fin (ffStep1 rec ⟨true, mx⟩ o data ex) decl [], []))
+        fun c2 acc => (c2, Except.ok (acc.1 ++ acc.2))) := by
+    have := ran_andThen
+      (b := (fin (ffStep2 rec ⟨true, mx⟩ o decl ex) data (fin (ffStep1 rec ⟨true, mx⟩ o data ex) decl [], [])).1 ++
+            (fin (ffStep2 rec ⟨true, mx⟩ o decl ex) data (fin (ffStep1 rec ⟨true, mx⟩ o data ex) decl [], [])).2)
+      (k := fun c2 (acc : Data × Data) => (c2, Except.ok (acc.1 ++ acc.2)))
+      (runLoop_ran (ffStep2_noAbort rec ⟨true, mx⟩ o decl ex) mx o
+        ((es0 ++ (trace (ffStep1 rec ⟨true, mx⟩ o data ex) decl []).1) ++
+          (trace (depsStep rec ⟨true, mx⟩ o decl ex data g) [()] ()).1)
+        (capOk_append h2) data (fin (ffStep1 rec ⟨true, mx⟩ o data ex) decl [], []))
+      (fun h3 => ran_pure mx o _ (capOk_append h3) _)
+    simpa using this
   cases ha : o.addition with
   | none =>
     simp only [held, ha, Addition.given, Bool.false_eq_true, if_false]
-    have := ran_andThen (rs2 := []) (b := fin (ffStep1 rec ⟨true, mx⟩ o data ex) decl [])
-      (k := fun c1 (res : Data) => (c1, Except.ok res))
-      (runLoop_ran (ffStep1_noAbort rec ⟨true, mx⟩ o data ex) mx o es0 h0 decl [])
-      (fun h1 => ran_pure mx o _ (capOk_append h1) _)
-    exact this
-  | no => simp only [held, ha, Addition.given, if_true]; exact hg
-  | yes => simp only [held, ha, Addition.given, if_true]; exact hg
-  | typed T => simp only [held, ha, Addition.given, if_true]; exact hg
+    exact ran_pure mx o _ (capOk_append h2) _
+  | no => simp only [held, ha, Addition.given, if_true]; exact hgiven
+  | yes => simp only [held, ha, Addition.given, if_true]; exact hgiven
+  | typed T => simp only [held, ha, Addition.given, if_true]; exact hgiven
 
-theorem parseData_ran (rec : P) (mx : Option Nat) (o : Opts) (decl : List FieldDecl) (ex : List String)
+theorem parseData_ran (rec : P) (mx : Option Nat) (o : Opts) (decl : List FieldDecl) (ex : List String) (g : Bool)
     (es0 : List Err) (h0 : capOk mx es0.length) (data : Data) :
-    Ran mx o es0 (reportsX rec ⟨true, mx⟩ o decl ex data) (valueX rec ⟨true, mx⟩ o decl ex data)
-      (parseData rec decl ex (held mx o es0) data) := by
-  unfold parseData reportsX valueX
+    Ran mx o es0 (reportsX rec ⟨true, mx⟩ o decl ex g data) (valueX rec ⟨true, mx⟩ o decl ex data)
+      (parseData rec decl ex g (held mx o es0) data) := by
+  unfold parseData reportsX valueX countReports
+  refine unit_loop_ran (countStep_noAbort o data.length) h0 _ (fun h1 => ?_)
   by_cases hd : o.dfs = true
-  · simp only [held, hd, if_true]; exact dataFirst_ran rec mx o decl ex es0 h0 data
-  · simp only [held, hd, Bool.false_eq_true, if_false]; exact fieldFirst_ran rec mx o decl ex es0 h0 data
+  · simp only [held, hd, if_true]; exact dataFirst_ran rec mx o decl ex g _ (capOk_append h1) data
+  · simp only [held, hd, Bool.false_eq_true, if_false]; exact fieldFirst_ran rec mx o decl ex g _ (capOk_append h1) data
 
 /-- turning a `Ran` outcome followed by the closing `raise_error()` into the raised exception -/
 theorem ran_finish {mx : Option Nat} {o : Opts} {rs : List Err} {a : α} {r : Ctx × Res α}
@@ -495,7 +537,7 @@ theorem run_collect (W : World) (n : Nat) (decl : List FieldDecl) (mx : Option N
       if reports (parse W n) ⟨true, mx⟩ o decl data = [] then .ok (value (parse W n) ⟨true, mx⟩ o decl data)
       else .error (.collected (cap mx (reports (parse W n) ⟨true, mx⟩ o decl data))) := by
   unfold run reports value
-  exact ran_finish hk (parseData_ran (parse W n) mx o decl [] [] hk data)
+  exact ran_finish hk (parseData_ran (parse W n) mx o decl [] true [] hk data)
 
 /-! ### calls with positional arguments, closed form -/
 
@@ -507,7 +549,7 @@ def posFin (rec : P) (m : Mode) (o : Opts) (sg : Sig) (args : List Val) : List V
   fin (posStep rec m o sg) args.zipIdx ([], [])
 
 def callReports (rec : P) (m : Mode) (o : Opts) (sg : Sig) (args : List Val) (kwargs : Data) : List Err :=
-  posReports rec m o sg args ++ reportsX rec m o sg.decl (posFin rec m o sg args).2 kwargs
+  posReports rec m o sg args ++ reportsX rec m o sg.decl (posFin rec m o sg args).2 true kwargs
 
 def callValue (rec : P) (m : Mode) (o : Opts) (sg : Sig) (args : List Val) (kwargs : Data) : List Val × Data :=
   ((posFin rec m o sg args).1, valueX rec m o sg.decl (posFin rec m o sg args).2 kwargs)
@@ -522,10 +564,10 @@ theorem runCall_collect (W : World) (n : Nat) (sg : Sig) (mx : Option Nat) (hk :
   have hin : ∀ (_ : capOk mx (([] : List Err).length +
         (trace (posStep (parse W n) ⟨true, mx⟩ o sg) args.zipIdx ([], [])).1.length)),
       Ran mx o ([] ++ (trace (posStep (parse W n) ⟨true, mx⟩ o sg) args.zipIdx ([], [])).1)
-        (reportsX (parse W n) ⟨true, mx⟩ o sg.decl (fin (posStep (parse W n) ⟨true, mx⟩ o sg) args.zipIdx ([], [])).2 kwargs)
+        (reportsX (parse W n) ⟨true, mx⟩ o sg.decl (fin (posStep (parse W n) ⟨true, mx⟩ o sg) args.zipIdx ([], [])).2 true kwargs)
         ((fin (posStep (parse W n) ⟨true, mx⟩ o sg) args.zipIdx ([], [])).1,
           valueX (parse W n) ⟨true, mx⟩ o sg.decl (fin (posStep (parse W n) ⟨true, mx⟩ o sg) args.zipIdx ([], [])).2 kwargs)
-        (andThen (parseData (parse W n) sg.decl (fin (posStep (parse W n) ⟨true, mx⟩ o sg) args.zipIdx ([], [])).2
+        (andThen (parseData (parse W n) sg.decl (fin (posStep (parse W n) ⟨true, mx⟩ o sg) args.zipIdx ([], [])).2 true
             (held mx o ([] ++ (trace (posStep (parse W n) ⟨true, mx⟩ o sg) args.zipIdx ([], [])).1)) kwargs)
           fun c2 kw => (c2, Except.ok ((fin (posStep (parse W n) ⟨true, mx⟩ o sg) args.zipIdx ([], [])).1, kw))) := by
     intro h1
@@ -533,13 +575,13 @@ theorem runCall_collect (W : World) (n : Nat) (sg : Sig) (mx : Option Nat) (hk :
       (b := ((fin (posStep (parse W n) ⟨true, mx⟩ o sg) args.zipIdx ([], [])).1,
         valueX (parse W n) ⟨true, mx⟩ o sg.decl (fin (posStep (parse W n) ⟨true, mx⟩ o sg) args.zipIdx ([], [])).2 kwargs))
       (k := fun c2 (kw : Data) => (c2, Except.ok ((fin (posStep (parse W n) ⟨true, mx⟩ o sg) args.zipIdx ([], [])).1, kw)))
-      (parseData_ran (parse W n) mx o sg.decl (fin (posStep (parse W n) ⟨true, mx⟩ o sg) args.zipIdx ([], [])).2
+      (parseData_ran (parse W n) mx o sg.decl (fin (posStep (parse W n) ⟨true, mx⟩ o sg) args.zipIdx ([], [])).2 true
         ([] ++ (trace (posStep (parse W n) ⟨true, mx⟩ o sg) args.zipIdx ([], [])).1) (capOk_append h1) kwargs)
       (fun h2 => ran_pure mx o _ (capOk_append h2) _)
     simpa using h2
   have h := ran_andThen
     (k := fun c1 (acc : List Val × List String) =>
-      andThen (parseData (parse W n) sg.decl acc.2 c1 kwargs) fun c2 kw => (c2, Except.ok (acc.1, kw)))
+      andThen (parseData (parse W n) sg.decl acc.2 true c1 kwargs) fun c2 kw => (c2, Except.ok (acc.1, kw)))
     (runLoop_ran (posStep_noAbort (parse W n) ⟨true, mx⟩ o sg) mx o [] hk args.zipIdx ([], []))
     hin
   have := ran_finish hk h
@@ -552,7 +594,7 @@ theorem runCall_collect (W : World) (n : Nat) (sg : Sig) (mx : Option Nat) (hk :
     | error x => rfl
     | ok acc =>
       simp only
-      cases parseData (parse W n) sg.decl acc.2 c1 kwargs with
+      cases parseData (parse W n) sg.decl acc.2 true c1 kwargs with
       | mk c2 r2 =>
         cases r2 with
         | error x => rfl
@@ -592,66 +634,128 @@ theorem posStep_eq {rec : P} {mC : Mode} (h : Good rec mC) (o : Opts) (sg : Sig)
   funext acc it
   simp only [posStep, fieldValue_eq h, h.verdict_eq]
 
+theorem excludedAsAbsent_eq {rec : P} {mC : Mode} (h : Good rec mC) (o : Opts) (f : FieldDecl) (v : Val) :
+    excludedAsAbsent rec .ff o f v = excludedAsAbsent rec mC o f v := by
+  unfold excludedAsAbsent
+  cases f.ty with
+  | none => rfl
+  | some T => simp only [h.verdict_eq]
+
+theorem depsLack_eq {rec : P} {mC : Mode} (h : Good rec mC) (o : Opts) (decl : List FieldDecl) (ex : List String)
+    (data : Data) : depsLack rec .ff o decl ex data = depsLack rec mC o decl ex data := by
+  have h1 : takes rec .ff o data ex = takes rec mC o data ex := by
+    funext f; simp only [takes, storesB, fieldValue_eq h, excludedAsAbsent_eq h]
+  have h2 : unprovidedF rec .ff o data ex = unprovidedF rec mC o data ex := by
+    funext f; simp only [unprovidedF, excludedAsAbsent_eq h]
+  have h3 : inResult rec .ff o data ex = inResult rec mC o data ex := by
+    funext f; simp only [inResult, h1, h2]
+  simp only [depsLack, h1, h2, h3]
+
+theorem depsStep_eq {rec : P} {mC : Mode} (h : Good rec mC) (o : Opts) (decl : List FieldDecl) (ex : List String)
+    (data : Data) (g : Bool) : depsStep rec .ff o decl ex data g = depsStep rec mC o decl ex data g := by
+  funext a i
+  simp only [depsStep, depsLack_eq h]
+
 theorem reportsX_eq {rec : P} {mC : Mode} (h : Good rec mC) (o : Opts) (decl : List FieldDecl) (ex : List String)
-    (data : Data) : reportsX rec .ff o decl ex data = reportsX rec mC o decl ex data := by
-  simp only [reportsX, reportsDF, reportsFF, dfStep1_eq h, ffStep1_eq h, ffStep2_eq h]
+    (g : Bool) (data : Data) : reportsX rec .ff o decl ex g data = reportsX rec mC o decl ex g data := by
+  simp only [reportsX, reportsDF, reportsFF, depsReports, dfStep1_eq h, ffStep1_eq h, ffStep2_eq h, depsStep_eq h]
 
 theorem reports_eq {rec : P} {mC : Mode} (h : Good rec mC) (o : Opts) (decl : List FieldDecl) (data : Data) :
-    reports rec .ff o decl data = reports rec mC o decl data := reportsX_eq h o decl [] data
+    reports rec .ff o decl data = reports rec mC o decl data := reportsX_eq h o decl [] true data
 
 theorem callReports_eq {rec : P} {mC : Mode} (h : Good rec mC) (o : Opts) (sg : Sig) (args : List Val)
     (kwargs : Data) : callReports rec .ff o sg args kwargs = callReports rec mC o sg args kwargs := by
   simp only [callReports, posReports, posFin, posStep_eq h, reportsX_eq h]
 
 /-- the two lookup strategies, two modes -/
-theorem parseData_sim {rec : P} {mC : Mode} (h : Good rec mC) (decl : List FieldDecl) (ex : List String)
+theorem parseData_sim {rec : P} {mC : Mode} (h : Good rec mC) (decl : List FieldDecl) (ex : List String) (g : Bool)
     (o : Opts) (data : Data) :
-    Sim o mC (parseData rec decl ex (clean0 .ff o) data) (parseData rec decl ex (clean0 mC o) data) := by
+    Sim o mC (parseData rec decl ex g (clean0 .ff o) data) (parseData rec decl ex g (clean0 mC o) data) := by
   unfold parseData
   simp only [clean0_o]
-  by_cases hd : o.dfs = true
-  · simp only [hd, if_true]
-    unfold dataFirst
-    simp only [clean0_mode, clean0_o, dfStep1_eq h]
-    refine sim_andThen (runLoop_sim _ mC o _ _) (fun acc => ?_) (fun c a hd => ?_)
-    · exact sim_andThen (runLoop_sim _ mC o _ _) (fun a => sim_pure o mC _) (fun c a hd => bad_of_dirty c _ hd)
-    · exact bad_andThen (runLoop_dirty _ c _ _ hd) (fun c a hd => bad_of_dirty c _ hd)
-  · simp only [hd, Bool.false_eq_true, if_false]
-    unfold fieldFirst
-    simp only [clean0_mode, clean0_o, ffStep1_eq h, ffStep2_eq h]
-    refine sim_andThen (runLoop_sim _ mC o _ _) (fun acc => ?_) (fun c a hd => ?_)
-    · cases o.addition with
-      | none => exact sim_pure o mC _
-      | no => exact sim_andThen (runLoop_sim _ mC o _ _) (fun a => sim_pure o mC _) (fun c a hd => bad_of_dirty c _ hd)
-      | yes => exact sim_andThen (runLoop_sim _ mC o _ _) (fun a => sim_pure o mC _) (fun c a hd => bad_of_dirty c _ hd)
-      | typed T => exact sim_andThen (runLoop_sim _ mC o _ _) (fun a => sim_pure o mC _) (fun c a hd => bad_of_dirty c _ hd)
-    · cases o.addition with
-      | none => exact bad_of_dirty c _ hd
-      | no => exact bad_andThen (runLoop_dirty _ c _ _ hd) (fun c a hd => bad_of_dirty c _ hd)
-      | yes => exact bad_andThen (runLoop_dirty _ c _ _ hd) (fun c a hd => bad_of_dirty c _ hd)
-      | typed T => exact bad_andThen (runLoop_dirty _ c _ _ hd) (fun c a hd => bad_of_dirty c _ hd)
+  refine sim_andThen (runLoop_sim _ mC o _ _) (fun _ => ?_) (fun c a hd => ?_)
+  · by_cases hd : o.dfs = true
+    · simp only [hd, if_true]
+      unfold dataFirst
+      simp only [clean0_mode, clean0_o, dfStep1_eq h, depsStep_eq h]
+      refine sim_andThen (runLoop_sim _ mC o _ _) (fun acc => ?_) (fun c a hd => ?_)
+      · refine sim_andThen (runLoop_sim _ mC o _ _) (fun a => ?_) (fun c a hd => ?_)
+        · exact sim_andThen (runLoop_sim _ mC o _ _) (fun a => sim_pure o mC _) (fun c a hd => bad_of_dirty c _ hd)
+        · exact bad_andThen (runLoop_dirty _ c _ _ hd) (fun c a hd => bad_of_dirty c _ hd)
+      · exact bad_andThen (runLoop_dirty _ c _ _ hd) (fun c a hd =>
+          bad_andThen (runLoop_dirty _ c _ _ hd) (fun c a hd => bad_of_dirty c _ hd))
+    · simp only [hd, Bool.false_eq_true, if_false]
+      unfold fieldFirst
+      simp only [clean0_mode, clean0_o, ffStep1_eq h, ffStep2_eq h, depsStep_eq h]
+      refine sim_andThen (runLoop_sim _ mC o _ _) (fun acc => ?_) (fun c a hd => ?_)
+      · refine sim_andThen (runLoop_sim _ mC o _ _) (fun _ => ?_) (fun c a hd => ?_)
+        · cases o.addition with
+          | none => exact sim_pure o mC _
+          | no => exact sim_andThen (runLoop_sim _ mC o _ _) (fun a => sim_pure o mC _) (fun c a hd => bad_of_dirty c _ hd)
+          | yes => exact sim_andThen (runLoop_sim _ mC o _ _) (fun a => sim_pure o mC _) (fun c a hd => bad_of_dirty c _ hd)
+          | typed T => exact sim_andThen (runLoop_sim _ mC o _ _) (fun a => sim_pure o mC _) (fun c a hd => bad_of_dirty c _ hd)
+        · cases o.addition with
+          | none => exact bad_of_dirty c _ hd
+          | no => exact bad_andThen (runLoop_dirty _ c _ _ hd) (fun c a hd => bad_of_dirty c _ hd)
+          | yes => exact bad_andThen (runLoop_dirty _ c _ _ hd) (fun c a hd => bad_of_dirty c _ hd)
+          | typed T => exact bad_andThen (runLoop_dirty _ c _ _ hd) (fun c a hd => bad_of_dirty c _ hd)
+      · refine bad_andThen (runLoop_dirty _ c _ _ hd) (fun c1 a hd1 => ?_)
+        cases o.addition with
+        | none => exact bad_of_dirty c1 _ hd1
+        | no => exact bad_andThen (runLoop_dirty _ c1 _ _ hd1) (fun c a hd => bad_of_dirty c _ hd)
+        | yes => exact bad_andThen (runLoop_dirty _ c1 _ _ hd1) (fun c a hd => bad_of_dirty c _ hd)
+        | typed T => exact bad_andThen (runLoop_dirty _ c1 _ _ hd1) (fun c a hd => bad_of_dirty c _ hd)
+  · -- the key count already reported: whatever follows ends in rejection
+    have hdf : Bad (dataFirst rec decl ex g c data) := by
+      unfold dataFirst
+      exact bad_andThen (runLoop_dirty _ c _ _ hd) (fun c1 a hd1 =>
+        bad_andThen (runLoop_dirty _ c1 _ _ hd1) (fun c2 a hd2 =>
+          bad_andThen (runLoop_dirty _ c2 _ _ hd2) (fun c3 a hd3 => bad_of_dirty c3 _ hd3)))
+    have hff : Bad (fieldFirst rec decl ex g c data) := by
+      unfold fieldFirst
+      refine bad_andThen (runLoop_dirty _ c _ _ hd) (fun c1 a hd1 =>
+        bad_andThen (runLoop_dirty _ c1 _ _ hd1) (fun c2 a hd2 => ?_))
+      cases c.o.addition with
+      | none => exact bad_of_dirty c2 _ hd2
+      | no => exact bad_andThen (runLoop_dirty _ c2 _ _ hd2) (fun c a hd => bad_of_dirty c _ hd)
+      | yes => exact bad_andThen (runLoop_dirty _ c2 _ _ hd2) (fun c a hd => bad_of_dirty c _ hd)
+      | typed T => exact bad_andThen (runLoop_dirty _ c2 _ _ hd2) (fun c a hd => bad_of_dirty c _ hd)
+    by_cases hdfs : o.dfs = true
+    · simp only [hdfs, if_true]; exact hdf
+    · simp only [hdfs, Bool.false_eq_true, if_false]; exact hff
 
-theorem parseData_dirty (rec : P) (decl : List FieldDecl) (ex : List String) (c : Ctx) (data : Data)
-    (hd : c.errors ≠ []) : Bad (parseData rec decl ex c data) := by
+theorem dataFirst_dirty (rec : P) (decl : List FieldDecl) (ex : List String) (g : Bool) (c : Ctx) (data : Data)
+    (hd : c.errors ≠ []) : Bad (dataFirst rec decl ex g c data) := by
+  unfold dataFirst
+  exact bad_andThen (runLoop_dirty _ c _ _ hd) (fun c1 a hd1 =>
+    bad_andThen (runLoop_dirty _ c1 _ _ hd1) (fun c2 a hd2 =>
+      bad_andThen (runLoop_dirty _ c2 _ _ hd2) (fun c3 a hd3 => bad_of_dirty c3 _ hd3)))
+
+theorem fieldFirst_dirty (rec : P) (decl : List FieldDecl) (ex : List String) (g : Bool) (c : Ctx) (data : Data)
+    (hd : c.errors ≠ []) : Bad (fieldFirst rec decl ex g c data) := by
+  unfold fieldFirst
+  refine bad_andThen (runLoop_dirty _ c _ _ hd) (fun c1 a hd1 =>
+    bad_andThen (runLoop_dirty _ c1 _ _ hd1) (fun c2 a hd2 => ?_))
+  cases c.o.addition with
+  | none => exact bad_of_dirty c2 _ hd2
+  | no => exact bad_andThen (runLoop_dirty _ c2 _ _ hd2) (fun c a hd => bad_of_dirty c _ hd)
+  | yes => exact bad_andThen (runLoop_dirty _ c2 _ _ hd2) (fun c a hd => bad_of_dirty c _ hd)
+  | typed T => exact bad_andThen (runLoop_dirty _ c2 _ _ hd2) (fun c a hd => bad_of_dirty c _ hd)
+
+theorem parseData_dirty (rec : P) (decl : List FieldDecl) (ex : List String) (g : Bool) (c : Ctx) (data : Data)
+    (hd : c.errors ≠ []) : Bad (parseData rec decl ex g c data) := by
   unfold parseData
+  refine bad_andThen (runLoop_dirty _ c _ _ hd) (fun c0 a hd0 => ?_)
   split
-  · unfold dataFirst
-    exact bad_andThen (runLoop_dirty _ c _ _ hd) (fun c1 a hd1 =>
-      bad_andThen (runLoop_dirty _ c1 _ _ hd1) (fun c2 a hd2 => bad_of_dirty c2 _ hd2))
-  · unfold fieldFirst
-    refine bad_andThen (runLoop_dirty _ c _ _ hd) (fun c1 a hd1 => ?_)
-    cases c.o.addition with
-    | none => exact bad_of_dirty c1 _ hd1
-    | no => exact bad_andThen (runLoop_dirty _ c1 _ _ hd1) (fun c a hd => bad_of_dirty c _ hd)
-    | yes => exact bad_andThen (runLoop_dirty _ c1 _ _ hd1) (fun c a hd => bad_of_dirty c _ hd)
-    | typed T => exact bad_andThen (runLoop_dirty _ c1 _ _ hd1) (fun c a hd => bad_of_dirty c _ hd)
+  · exact dataFirst_dirty rec decl ex g c0 data hd0
+  · exact fieldFirst_dirty rec decl ex g c0 data hd0
 
 /-- fail-fast and collecting runs of a declaration: same verdict, same value -/
 theorem run_strong (W : World) (n : Nat) (decl : List FieldDecl) (mC : Mode) (o : Opts) (data : Data) :
     (∃ r, run W n decl .ff o data = .ok r ∧ run W n decl mC o data = .ok r) ∨
     ((∃ x, run W n decl .ff o data = .error x) ∧ ∃ x, run W n decl mC o data = .error x) := by
   unfold run
-  rcases sim_finish (parseData_sim (parse_good W mC n) decl [] o data) with ⟨r, hF, hC⟩ | ⟨⟨c, x, hF⟩, c', x', hC⟩
+  rcases sim_finish (parseData_sim (parse_good W mC n) decl [] true o data) with ⟨r, hF, hC⟩ | ⟨⟨c, x, hF⟩, c', x', hC⟩
   · left; exact ⟨r, by rw [hF], by rw [hC]⟩
   · right; exact ⟨⟨x, by rw [hF]⟩, x', by rw [hC]⟩
 
@@ -664,17 +768,17 @@ theorem runCall_strong (W : World) (n : Nat) (sg : Sig) (mC : Mode) (o : Opts) (
   simp only [clean0_mode, clean0_o, posStep_eq hg]
   have hs : StrongSim o mC
       (andThen (runLoop (posStep (parse W n) mC o sg) (clean0 .ff o) args.zipIdx ([], [])) fun c1 acc =>
-        andThen (parseData (parse W n) sg.decl acc.2 c1 kwargs) fun c2 kw => finish c2 (acc.1, kw))
+        andThen (parseData (parse W n) sg.decl acc.2 true c1 kwargs) fun c2 kw => finish c2 (acc.1, kw))
       (andThen (runLoop (posStep (parse W n) mC o sg) (clean0 mC o) args.zipIdx ([], [])) fun c1 acc =>
-        andThen (parseData (parse W n) sg.decl acc.2 c1 kwargs) fun c2 kw => finish c2 (acc.1, kw)) := by
+        andThen (parseData (parse W n) sg.decl acc.2 true c1 kwargs) fun c2 kw => finish c2 (acc.1, kw)) := by
     refine sim_andThen_strong (runLoop_sim _ mC o _ _) (fun acc => ?_) (fun c1 acc hd => ?_)
-    · refine sim_andThen_strong (parseData_sim hg sg.decl acc.2 o kwargs) (fun kw => ?_) (fun c2 kw hd => ?_)
+    · refine sim_andThen_strong (parseData_sim hg sg.decl acc.2 true o kwargs) (fun kw => ?_) (fun c2 kw hd => ?_)
       · rw [finish_clean, finish_clean]; left; exact ⟨_, rfl, rfl⟩
       · obtain ⟨x, hx⟩ := finish_dirty c2 hd (acc.1, kw)
         exact ⟨c2, x, hx⟩
-    · have hb := parseData_dirty (parse W n) sg.decl acc.2 c1 kwargs hd
+    · have hb := parseData_dirty (parse W n) sg.decl acc.2 true c1 kwargs hd
       revert hb
-      cases parseData (parse W n) sg.decl acc.2 c1 kwargs with
+      cases parseData (parse W n) sg.decl acc.2 true c1 kwargs with
       | mk c2 r2 =>
         intro hb
         cases r2 with
